@@ -19,7 +19,7 @@ ASSUMPTIONS = [
 ]
 REQUIRED = {t: ['source:driver', 'source:replica', 'problem:Smooth', 'problem:Singular', 'problem:Dirichlet', 'problem:MildSingular',
                 'domain:UnitSquare', 'domain:PiSquare', 'domain:LShape', 'domain:Circle', 'switch:exact', 'switch:quad',
-                'elem:first-slab', 'elem:seam', 'elem:finest', 'driver:second-loop', 'data:initial', 'data:dirichlet']
+                'elem:first-slab', 'elem:seam', 'elem:finest', 'elem:screened', 'driver:second-loop', 'data:initial', 'data:dirichlet']
             for t in ('quick', 'thorough')}
 TIMEOUT = {'quick': 1800, 'thorough': 9000}
 
@@ -74,6 +74,29 @@ def pick_elements(elems, L, rng, n):
     while len(picks) < n and len(picks) < len(big):
         add('random', big)
     return picks[:max(n, 3)]
+
+
+def screen_elements(acc, residual, elems, already, top=3):
+    """Cheap rule over ALL leaves (it cannot decide, but a gross violation of orthogonality on one leaf stands out); the leaves
+    with the largest screened ratio join the sample and are decided with the fine rule."""
+    import numpy as np
+    from ..oracles import resquad
+    t_breaks = sorted({t for e in elems for t in e.time_interval})
+    x_breaks = sorted({x for e in elems for x in e.space_interval})
+    scored = []
+    for E in elems:
+        if E.h_x < 8e-3 or any(E is a for a in already):
+            continue
+        try:
+            Tn, Xn, Wn = resquad.element_rule(E.time_interval, E.space_interval, t_breaks, x_breaks, n=3, depth_t=2, depth_x=2)
+            r = np.asarray(residual(Tn, Xn, E.gamma_space), dtype=float)
+        except Exception:
+            continue
+        a = float(np.sum(Wn * np.abs(r)))
+        scored.append((abs(float(np.sum(Wn * r))) / max(a, 1e-300), E))
+        acc.count('elements_screened')
+    scored.sort(key=lambda s_: -s_[0])
+    return [('screened', E) for _, E in scored[:top]]
 
 
 def judge_residual(acc, residual, elems, sample, wit0, src, label_classes):
@@ -199,6 +222,7 @@ def run_replica(spec, acc):
         acc.violation('replica-raised:%s:%s' % (fr[0], type(ex).__name__), '%s/%s: raised %s at %s:%d' % (p, d, type(ex).__name__, fr[1], fr[2]), wit0)
         return
     sample = pick_elements(elems, geo.length, rng, spec['n_elem'])
+    sample += screen_elements(acc, residual, elems, [e for _, e in sample])
     judge_residual(acc, residual, elems, sample, dict(wit0, n_elements=len(elems)), 'replica|%s-%s|%d' % (p, d, spec['rseed']), classes)
 
 
